@@ -80,7 +80,7 @@ PLANS = {
     "C11": dict(
         quick=dict(mc=["ovl"], gens=[dict(maxlog=2, num=2500, depth=28, lean=True, focus="overlay", top=120, templates=True)],
                    per_beh=2, fs=[1, 1, 3, 25], vts=["tiny", "edge", "ovf", "ovf", "mixed"], embs=api.EMBEDDINGS_QUICK),
-        thorough=dict(mc=["ovl", "ovl3"], gens=[dict(maxlog=2, num=6000, depth=32, lean=True, focus="overlay", top=600),
+        thorough=dict(mc=["ovl", "ovl3"], gens=[dict(maxlog=2, num=6000, depth=32, lean=True, focus="overlay", top=600, templates=True),
                                                 dict(maxlog=2, num=300, depth=32, lean=False, focus="overlay")],
                       per_beh=4, fs=[1, 3, 25], vts=["tiny", "edge", "ovf", "mixed"], embs=api.EMBEDDINGS_ALL)),
     "C12": dict(
@@ -121,6 +121,8 @@ def run_plan(pid, tier, seed, extra_cov=None, t0=None):
     consts_by_class = {}
     script_by_run = {}
     twin_of = {}
+    twin_prop = {}
+    forced_twin = {}
     group_of = {}
     run = 0
     nbeh = 0
@@ -136,9 +138,16 @@ def run_plan(pid, tier, seed, extra_cov=None, t0=None):
             kept = sorted(kept, key=lambda b: -api.score(b, g["focus"]))[: g["top"]]
         if g.get("templates") == "rollback":
             tpl = api.rollback_templates(sorted(consts["Keys"]), g["maxlog"])
-            kept = kept + (tpl if tier == "thorough" else rng.sample(tpl, 8))
+            tpl = tpl if tier == "thorough" else rng.sample(tpl, 8)
         elif g.get("templates"):
             kept = kept + api.overlay_templates(sorted(consts["Keys"]))
+            tpl = api.rollback_templates(sorted(consts["Keys"]), g["maxlog"])
+            tpl = tpl if tier == "thorough" else rng.sample(tpl, 6)
+        else:
+            tpl = []
+        for tb, ttw in tpl:
+            kept.append(tb)
+            forced_twin[id(tb)] = ttw
         C.log("[%s] generated %d behaviours (maxlog=%d), %d match focus '%s'" %
               (pid, len(behs), g["maxlog"], len(kept), g["focus"]))
         for b in kept:
@@ -187,7 +196,10 @@ def run_plan(pid, tier, seed, extra_cov=None, t0=None):
                 script_by_run[run] = sc
                 distinct.add(C.sha([bb, store, conc]))
                 tw = None
-                if plan.get("twins") == "rejected":
+                tprop = "C12" if plan.get("twins") == "rejected" else "C10"
+                if id(b) in forced_twin:
+                    tw, tprop = [dict(x) for x in forced_twin[id(b)]], "C11"
+                elif plan.get("twins") == "rejected":
                     tw = api.twin_without_rejected(bb)
                 elif plan.get("twins") == "reopen":
                     tw = api.twin_without_reopen(bb)
@@ -198,6 +210,7 @@ def run_plan(pid, tier, seed, extra_cov=None, t0=None):
                     classes[run] = ckey
                     script_by_run[run] = tsc
                     twin_of[run - 1] = run
+                    twin_prop[run - 1] = tprop
     cycle_runs = []
     if plan.get("cycles"):
         # fill / overwrite-with-another-size-class / empty cycles (legal NomtApi behaviours; ApiTrace validates them too)
@@ -259,7 +272,8 @@ def run_plan(pid, tier, seed, extra_cov=None, t0=None):
         is_twin = rej["run"] in twin_of.values()
         if not is_twin and rej["run"] in twin_of and twin_of[rej["run"]] not in accepted_set_rejected_runs \
                 and twin_of[rej["run"]] in runs:
-            prop = "C12" if plan.get("twins") == "rejected" else "C10"
+            prop = twin_prop.get(rej["run"], "C10")
+            props.add(prop)
         payload = dict(kind="api-trace", property=prop, found_by=pid, script=sc, rejected_step=rej["pos"],
                        rejected_record=rej["record"], failing_class=rej["cls"], tier=tier, seed=seed)
         fid = findings.match_api(prop, rej, sc)
